@@ -226,23 +226,26 @@ Definition ns_pop (key : str) (default : val) (root : alist) : res (val * alist)
       end
   end.
 
-(* items(branches): depth first, insertion order, branch before its children; keys unmarked.
-   Fuel bounds the nesting depth (values are finite trees; the judge passes the size). *)
+(* items(branches): depth first, insertion order, branch before its children; keys unmarked
+   (the joined sub-key is passed through del_clash_mark once more, as the code does).
+   Structural recursion on the value tree: no fuel. *)
 Definition join_dot (a b : str) : str := a ++ DOT :: b.
 
-Fixpoint ns_items (fuel : nat) (branches : bool) (d : alist) : list (str * val) :=
-  match fuel with
-  | 0 => []
-  | S f =>
+Fixpoint ns_items_v (branches : bool) (v : val) : list (str * val) :=
+  match v with
+  | VNs d =>
       flat_map (fun kv =>
         let key := unmark (fst kv) in
         match snd kv with
         | VNs d' =>
             (if branches then [(key, VNs d')] else []) ++
-            map (fun sk => (join_dot key (unmark (fst sk)), snd sk)) (ns_items f branches d')
-        | v => [(key, v)]
+            map (fun sk => (join_dot key (unmark (fst sk)), snd sk)) (ns_items_v branches (snd kv))
+        | x => [(key, x)]
         end) d
+  | _ => []
   end.
+
+Definition ns_items (branches : bool) (d : alist) : list (str * val) := ns_items_v branches (VNs d).
 
 (* update(value, key, only_unset) *)
 Definition ns_update_value (v : val) (key : option str) (only_unset : bool) (root : alist) : res alist :=
@@ -256,7 +259,7 @@ Definition ns_update_value (v : val) (key : option str) (only_unset : bool) (roo
       else ns_setitem k v root
   end.
 
-Definition ns_update_ns (fuel : nat) (src : alist) (key : option str) (only_unset : bool) (root : alist)
+Definition ns_update_ns (src : alist) (key : option str) (only_unset : bool) (root : alist)
   : res alist :=
   let prefix := match key with Some (c :: k) => (c :: k) ++ [DOT] | _ => [] end in
   fold_left (fun acc kv =>
@@ -265,30 +268,32 @@ Definition ns_update_ns (fuel : nat) (src : alist) (key : option str) (only_unse
     | Ok r =>
         let k := prefix ++ fst kv in
         if only_unset && ns_contains k r then Ok r else ns_setitem k (snd kv) r
-    end) (ns_items fuel false src) (Ok root).
+    end) (ns_items false src) (Ok root).
 
 (* as_dict *)
 Fixpoint all_ns (l : list val) : bool :=
   match l with [] => true | VNs _ :: l' => all_ns l' | _ => false end.
 
-Fixpoint ns_as_dict (fuel : nat) (d : alist) : alist :=
-  match fuel with
-  | 0 => []
-  | S f =>
-      map (fun kv =>
-        let conv (v : val) := match v with VNs d' => VDict (ns_as_dict f d') | x => x end in
+Fixpoint ns_as_dict_v (v : val) : val :=
+  match v with
+  | VNs d =>
+      VDict (map (fun kv =>
         (unmark (fst kv),
          match snd kv with
-         | VNs d' => VDict (ns_as_dict f d')
+         | VNs _ => ns_as_dict_v (snd kv)
          | VDict dd =>
              if negb (is_nil dd) && all_ns (map snd dd)
-             then VDict (map (fun kv' => (fst kv', conv (snd kv'))) dd) else VDict dd
+             then VDict (map (fun kv' => (fst kv', match snd kv' with VNs _ => ns_as_dict_v (snd kv') | x => x end)) dd)
+             else VDict dd
          | VList l =>
              if negb (is_nil l) && all_ns l
-             then VList (map conv l) else VList l
-         | v => v
-         end)) d
+             then VList (map (fun x => match x with VNs _ => ns_as_dict_v x | y => y end) l) else VList l
+         | x => x
+         end)) d)
+  | x => x
   end.
+
+Definition ns_as_dict (d : alist) : val := ns_as_dict_v (VNs d).
 
 (* Namespace(dict): for key, val in dict.items(): self[key] = val *)
 Definition ns_init_from_dict (d : alist) : res alist :=
